@@ -19,7 +19,7 @@ def spDataG (after during : Val → Bool) (sps : List Val) (start : Nat) : M Val
   else if sps.length ≤ start then .error .valueError
   else
     match sps[candG after (sps.drop start) start]? with
-    | none => .error (.internal "IndexError")
+    | none => .error (.internal "UnboundLocalError")
     | some p =>
       if during p then
         .ok (.tup (.cons (.obj "StarPowerData" (.field "star_power_event_index" (.int (candG after (sps.drop start) start)) .fnil))
